@@ -343,7 +343,7 @@ pub fn run(ctx: &Ctx) {
     ctx.run_list("boundary_scenarios", &cases, false, oracle);
     ctx.run_prop(
         "random_sequences",
-        ctx.tier.pick(30_000, 1_000_000),
+        ctx.tier.pick(60_000, 1_000_000),
         move || {
             let nonce = prop_oneof![6 => (0usize..NONCES.len()).prop_map(|i| NONCES[i]), 1 => any::<u64>()];
             let op = prop_oneof![
